@@ -205,6 +205,14 @@ class CSSUnknownRule(cssrule.CSSRule):
                     'CSSUnknownRule: Unclosed "{", "[" or "(": %r'
                     % self._valuestr(cssText)
                 )
+            elif self._normalize(self._tokenvalue(attoken)) == '@charset':
+                # "@charset" not followed by a single space is no charset rule
+                # but must not be kept either: serialized again it would be one
+                wellformed = False
+                self._log.error(
+                    'CSSUnknownRule: @charset must be followed by a space: %r'
+                    % self._valuestr(cssText)
+                )
 
             # set all
             if wellformed:
